@@ -595,6 +595,11 @@ func TestC03(t *testing.T) {
 	}) {
 		return
 	}
+	if !ev.Rapid(t, rec, "large_products", rec.Scale(120, 4000), genLargeCase, func(c Case) *ev.Failure {
+		return runRecorded("large_products", c, "large_products")
+	}) {
+		return
+	}
 	// the same oracle with the process-wide log verbosity raised (the decoder logs at V(4)/V(5);
 	// logging must not change what is decoded)
 	glue.SetKlogVerbosity(5)
